@@ -176,6 +176,19 @@ fn algebra_case(sh: &mut Shard, chain: &[M], pts: &[(i64, i64)], verbose: bool) 
     if cf.is_identity() != (acc == M::ID) {
         sh.violation("is_identity|AffineTransform<f64>|-", det("is_identity", (acc == M::ID).to_string(), cf.is_identity().to_string()));
     }
+    // ---- new, From<[T; 6]> and From<(T, T, T, T, T, T)> take the six entries in the same order [a, b, xoff, d, e, yoff]
+    sh.eval(1);
+    {
+        let arr = [acc.a as f64, acc.b as f64, acc.x as f64, acc.d as f64, acc.e as f64, acc.y as f64];
+        let from_arr: AffineTransform<f64> = arr.into();
+        let from_tup: AffineTransform<f64> = (arr[0], arr[1], arr[2], arr[3], arr[4], arr[5]).into();
+        let iarr = [acc.a as i64, acc.b as i64, acc.x as i64, acc.d as i64, acc.e as i64, acc.y as i64];
+        let ifrom_arr: AffineTransform<i64> = iarr.into();
+        let ifrom_tup: AffineTransform<i64> = (iarr[0], iarr[1], iarr[2], iarr[3], iarr[4], iarr[5]).into();
+        if mat_of_f(&from_arr) != arr || mat_of_f(&from_tup) != arr || mat_of_f(&acc.to_f()) != arr || mat_of_i(&ifrom_arr) != iarr || mat_of_i(&ifrom_tup) != iarr {
+            sh.violation("constructors.entry_order|AffineTransform|-", det("constructors.entry_order", format!("{:?}", arr), format!("from array {:?} from tuple {:?} new {:?} i64: {:?} {:?}", mat_of_f(&from_arr), mat_of_f(&from_tup), mat_of_f(&acc.to_f()), mat_of_i(&ifrom_arr), mat_of_i(&ifrom_tup))));
+        }
+    }
     // ---- inverse: None exactly for singular matrices; inverse∘t = id
     sh.eval(1);
     let d = acc.det();
@@ -357,6 +370,37 @@ fn has_renormalising_member(a: &IG) -> bool {
         _ => false,
     }
 }
+/// a Triangle stored clockwise: MapCoords rebuilds a Triangle with Triangle::new, which re-orders such a triple (the
+/// recorded C19 finding triangle_map_coords_reorders_vertices), so the ORDER of its images is not judged here
+fn has_cw_triangle(a: &IG) -> bool {
+    match a {
+        IG::Triangle(p, q, s) => orient_i(*p, *q, *s) < 0,
+        IG::Collection(v) => v.iter().any(has_cw_triangle),
+        _ => false,
+    }
+}
+/// coordinates in traversal order, the three of every Triangle sorted (by bit pattern): equal exactly when the
+/// geometries are equal up to the vertex order of their triangles
+fn coords_norm(g: &Geometry<f64>) -> Vec<(u64, u64)> {
+    fn walk(g: &Geometry<f64>, out: &mut Vec<(u64, u64)>) {
+        match g {
+            Geometry::Triangle(t) => {
+                let mut v: Vec<(u64, u64)> = t.to_array().iter().map(|c| (c.x.to_bits(), c.y.to_bits())).collect();
+                v.sort();
+                out.extend(v);
+            }
+            Geometry::GeometryCollection(gc) => {
+                for m in &gc.0 {
+                    walk(m, out);
+                }
+            }
+            o => out.extend(o.coords_iter().map(|c| (c.x.to_bits(), c.y.to_bits()))),
+        }
+    }
+    let mut out = vec![];
+    walk(g, &mut out);
+    out
+}
 fn trait_case(sh: &mut Shard, a: &IG, lat: &Lat, op: &TOp, verbose: bool) {
     let g = a.to_geo(lat);
     let cs = coords_of(&g);
@@ -432,7 +476,7 @@ fn trait_case(sh: &mut Shard, a: &IG, lat: &Lat, op: &TOp, verbose: bool) {
                 TOp::Scale(f) => *f > 0.0,
                 TOp::ScaleXY(x, y) | TOp::ScaleAround(x, y, _) => *x > 0.0 && *y > 0.0,
                 _ => false,
-            };
+            } && !has_cw_triangle(a);
             if has_renormalising_member(a) && !matches!(a, IG::Rect(..)) && !order_safe {
                 // observe-only: no panic, same number of coordinates
                 if out.len() != cs.len() {
@@ -550,7 +594,8 @@ fn commute_case(sh: &mut Shard, a: &IG, b: &IG, q: IP, ex: &Exact, verbose: bool
         sh.eval(1);
         match call(|| g.affine_transform(&t)) {
             Ok(tg) => {
-                let same = if let (Geometry::Rect(r1), Geometry::Rect(r2)) = (&tg, h) { r1 == r2 } else { coords_of(&tg) == coords_of(h) };
+                // (-0.0 and 0.0 are one coordinate; a clockwise Triangle comes back re-ordered: see has_cw_triangle)
+                let same = if let (Geometry::Rect(r1), Geometry::Rect(r2)) = (&tg, h) { r1 == r2 } else if has_cw_triangle(ig) || has_cw_triangle(&ex.map_ig(ig)) { use geo::MapCoords; let z = |c: Coord<f64>| Coord { x: c.x + 0.0, y: c.y + 0.0 }; coords_norm(&tg.map_coords(z)) == coords_norm(&h.map_coords(z)) } else { coords_of(&tg) == coords_of(h) };
                 if !same {
                     sh.violation(&format!("exact.affine_transform|{}|-", ig.kind()), det("exact.affine_transform", format!("{:?}", h), format!("{:?}", tg)));
                 }
